@@ -33,16 +33,16 @@ type fnSpec struct {
 
 // The functions translated, in the order they are printed.
 var fnList = []fnSpec{
-	{Coq: "VarInt_Length", File: "varint.go", Recv: "VarInt", Name: "Length", Props: []string{"C01", "C10", "C11"}},
-	{Coq: "VarInt_Bytes", File: "varint.go", Recv: "VarInt", Name: "Bytes", Props: []string{"C01", "C10", "C11"}},
-	{Coq: "VarInt_UpperLimitInc", File: "varint.go", Recv: "VarInt", Name: "UpperLimitInc", Props: []string{"C10", "C11"}},
-	{Coq: "PushDataPrefix", File: "bscript/oppushdata.go", Name: "PushDataPrefix", Props: []string{"C13", "C06", "C11"}},
+	{Coq: "VarInt_Length", File: "varint.go", Recv: "VarInt", Name: "Length", Props: []string{"C01", "C10", "C11", "C02", "C03", "C12"}},
+	{Coq: "VarInt_Bytes", File: "varint.go", Recv: "VarInt", Name: "Bytes", Props: []string{"C01", "C10", "C11", "C02", "C03", "C12", "C16"}},
+	{Coq: "VarInt_UpperLimitInc", File: "varint.go", Recv: "VarInt", Name: "UpperLimitInc", Props: []string{"C10", "C11", "C12"}},
+	{Coq: "PushDataPrefix", File: "bscript/oppushdata.go", Name: "PushDataPrefix", Props: []string{"C13", "C06", "C11", "C04", "C20", "C14"}},
 	{Coq: "MinPushSize", File: "bscript/script.go", Name: "MinPushSize", Props: []string{"C13"}},
 	{Coq: "Flag_Has", File: "sighash/flag.go", Recv: "Flag", Name: "Has", Props: []string{"C02", "C03"}},
 	{Coq: "Flag_HasWithMask", File: "sighash/flag.go", Recv: "Flag", Name: "HasWithMask", Props: []string{"C02", "C03"}},
-	{Coq: "Script_IsP2PKH", File: "bscript/script.go", Recv: "Script", Name: "IsP2PKH", Fields: []string{"*s"}, Props: []string{"C14", "C11"}},
+	{Coq: "Script_IsP2PKH", File: "bscript/script.go", Recv: "Script", Name: "IsP2PKH", Fields: []string{"*s"}, Props: []string{"C14", "C11", "C04", "C10", "C12", "C15", "C20"}},
 	{Coq: "Script_IsP2SH", File: "bscript/script.go", Recv: "Script", Name: "IsP2SH", Fields: []string{"*s"}, Props: []string{"C14"}},
-	{Coq: "Script_IsData", File: "bscript/script.go", Recv: "Script", Name: "IsData", Fields: []string{"*s"}, Props: []string{"C14", "C11"}},
+	{Coq: "Script_IsData", File: "bscript/script.go", Recv: "Script", Name: "IsData", Fields: []string{"*s"}, Props: []string{"C14", "C11", "C10", "C12", "C16"}},
 	{Coq: "isSmallIntOp", File: "bscript/script.go", Name: "isSmallIntOp", Props: []string{"C14"}},
 	{Coq: "ScriptFlag_HasFlag", File: "bscript/interpreter/scriptflag/scriptflag.go", Recv: "Flag", Name: "HasFlag", Props: []string{"C05"}},
 	{Coq: "ScriptFlag_HasAny", File: "bscript/interpreter/scriptflag/scriptflag.go", Recv: "Flag", Name: "HasAny", Props: []string{"C05"}},
